@@ -5,7 +5,11 @@
    local assignment, attribute/item stores, if, for-in with break/continue/return, return).  They hold for ALL
    trees of that fragment, ALL fault oracles (any set of failing calls/allocations: in particular "the k-th
    call raises" for every k, and no fault), all iteration counts and all aliasing choices of results.
-   Not covered by a theorem (tested only by props/C35.py): try/except/finally, with, unpacking,
+   The __exit__ call of the with statement (WithExitCallNode, its unmanaged result temp and the truth test of the
+   result) is modelled on its own (exit_call / with_stat) and proved balanced on every outcome for every oracle;
+   the with statement as a whole is executable in the model but NOT yet part of the gen_stmt induction (the
+   except label needs a frame property of bodies on their error exit that the statement lemmas do not carry).
+   Not covered by a theorem (tested only by props/C35.py): try/except/finally, with bodies, unpacking,
    comprehensions, augmented assignment, method/keyword/star calls, C utility code.  The full property over
    all of Cython is FALSE on the current tree: the return value stashed by TryFinallyStatNode (also used by
    "with") lives in an unmanaged temp and leaks when the finally clause / __exit__ raises
@@ -92,6 +96,42 @@ Proof.
   exact (S O fuel).
 Qed.
 Print Assumptions C35_statement_outcomes.
+
+(* WithExitCallNode as emitted (both uses: normal exit, test = false, args = []; except branch, test = true,
+   args = [tuple temp]): for EVERY oracle (the call fails / the truth test of the returned object fails / it answers
+   either way) and every state satisfying the ledger invariant in which exit_var and the args tuple are live,
+   the code ends (normally or at the error label) with the invariant intact: exactly exit_var and the args tuple
+   released, the unmanaged result reference released, result slot untouched; it is never stuck *)
+Theorem C35_with_exit_call_balanced :
+  forall (O : orc) (test : bool) (te : nat) (args : list nat) (s : state) (L : nat -> Prop),
+    Inv s -> BT L s -> NoDup (te :: args) -> (forall t, In t (te :: args) -> L t) ->
+    match exit_call O false test te args s with
+    | Norm s' | Err s' => Inv s' /\ BT (fun u => L u /\ ~ In u (te :: args)) s' /\ res s' = res s
+    | _ => False
+    end.
+Proof. exact P_Refs.exit_call_ok. Qed.
+Print Assumptions C35_with_exit_call_balanced.
+
+(* the emission order with the error test of the truth value in FRONT of DECREF(result_var) is refuted: from a
+   state satisfying the invariant, with the truth test raising, the error label is reached with a reference
+   (object 12) that no temp, local or result slot accounts for *)
+Theorem C35_with_exit_late_decref_refuted :
+  Inv wit_state /\
+  exists s', exit_call wit_orc true true 0 [1] wit_state = Err s' /\
+             temps s' = [] /\ locs s' = [] /\ res s' = None /\ bal (tr s') 12 = 1.
+Proof. split; [exact P_Refs.wit_state_inv|exact P_Refs.exit_call_late_leaks]. Qed.
+Print Assumptions C35_with_exit_late_decref_refuted.
+
+(* ... and at statement level: "with a: <raise>" whose __exit__ result fails its truth test (call 2): the variant
+   reaches the error label owning object 11 without a slot; the emitted order is balanced on the same input *)
+Theorem C35_with_stat_late_decref_refuted :
+  (exists s', (wit_with true = Err s') /\ (bal (tr s') 11 = 1) /\ (cnt 11 (temps s') = 0) /\
+              (cnt 11 (locs s') = 0) /\ (res s' = None)) /\
+  (exists s', (wit_with false = Err s') /\
+              (forallb (fun o => Nat.eqb (bal (tr s') o) (cnt o (temps s'))) (seq 0 20) = true) /\
+              (length (tr s') = 11)).
+Proof. split; [exact P_Refs.with_late_leaks|exact P_Refs.with_asis_same_input]. Qed.
+Print Assumptions C35_with_stat_late_decref_refuted.
 
 (* non-vacuity: "for v0 in a + b: if v0: break; else: return (v0, c(v0))" with the 4th call failing runs to
    the error exit with a non-trivial trace; the fault-free run returns a value *)
